@@ -292,11 +292,22 @@ impl<'a> EventListenerFuture for AcquireInner<'a> {
     ) -> Poll<Self::Output> {
         let this = self.project();
 
+        // Set once our listener has fired (and been consumed) during this call.
+        let mut notified = false;
+
         loop {
             match this.semaphore.try_acquire() {
                 Some(guard) => {
                     // Stop listening; if we were notified, this passes the notification on.
                     *this.listener = None;
+
+                    // If the notification was already consumed above, pass it on by hand: another
+                    // permit may have been released while it was pending, and that release's
+                    // `notify(1)` was a no-op then.
+                    if notified {
+                        this.semaphore.event.notify(1);
+                    }
+
                     return Poll::Ready(guard);
                 }
                 None => {
@@ -305,6 +316,7 @@ impl<'a> EventListenerFuture for AcquireInner<'a> {
                         *this.listener = Some(this.semaphore.event.listen());
                     } else {
                         ready!(strategy.poll(this.listener, cx));
+                        notified = true;
                     }
                 }
             }
@@ -349,11 +361,20 @@ impl EventListenerFuture for AcquireArcInner {
     ) -> Poll<Self::Output> {
         let this = self.project();
 
+        // Set once our listener has fired (and been consumed) during this call.
+        let mut notified = false;
+
         loop {
             match this.semaphore.try_acquire_arc() {
                 Some(guard) => {
                     // Stop listening; if we were notified, this passes the notification on.
                     *this.listener = None;
+
+                    // See `AcquireInner`: a notification consumed above is passed on by hand.
+                    if notified {
+                        this.semaphore.event.notify(1);
+                    }
+
                     return Poll::Ready(guard);
                 }
                 None => {
@@ -362,6 +383,7 @@ impl EventListenerFuture for AcquireArcInner {
                         *this.listener = Some(this.semaphore.event.listen());
                     } else {
                         ready!(strategy.poll(this.listener, cx));
+                        notified = true;
                     }
                 }
             }
